@@ -563,3 +563,85 @@ Qed.
 End Writer.
 
 End CsvFacts.
+
+(* ================================================================== the dialect in use *)
+
+(* The csv parameters are regenerated from the running interpreter / tablib on every run
+   (Gen/Tables.v).  The model in Csv.v is the model of a dialect with doublequote,
+   QUOTE_MINIMAL, no escapechar, no skipinitialspace, not strict; the facts above need the
+   quote character and the delimiter to be distinct non-newline characters and the line
+   terminator to be CR LF.  All of that is one boolean over the regenerated table: if tablib
+   or the interpreter ever change it, this lemma stops compiling. *)
+Definition csv_dialect_ok : bool :=
+  negb (is_nl csv_quotechar) && negb (is_nl csv_delimiter) && negb (csv_delimiter =? csv_quotechar)
+  && str_eqb csv_lineterminator [c_cr; c_lf]
+  && csv_doublequote && csv_quote_minimal && csv_no_escapechar && negb csv_skipinitialspace && negb csv_strict.
+
+Lemma csv_tables_ok : csv_dialect_ok = true.
+Proof. vm_compute. reflexivity. Qed.
+
+Lemma csv_q_nl : is_nl csv_quotechar = false.
+Proof. vm_compute. reflexivity. Qed.
+Lemma csv_d_nl : is_nl csv_delimiter = false.
+Proof. vm_compute. reflexivity. Qed.
+Lemma csv_dq : (csv_delimiter =? csv_quotechar) = false.
+Proof. vm_compute. reflexivity. Qed.
+Lemma csv_term : csv_lineterminator = [c_cr; c_lf].
+Proof. vm_compute. reflexivity. Qed.
+
+(* the reader's guard: csv.field_size_limit() characters per field *)
+Definition fits (s : str) : Prop := N.of_nat (length s) <= csv_field_limit.
+
+Definition csv_rd := csv_read csv_delimiter csv_quotechar csv_field_limit.
+Definition csv_wr := csv_write csv_delimiter csv_quotechar csv_lineterminator.
+
+Theorem csv_roundtrip rows : Forall (Forall fits) rows -> csv_rd (csv_wr rows) = Ok rows.
+Proof. exact (csv_roundtrip_gen _ _ _ csv_q_nl csv_d_nl csv_dq _ csv_term rows). Qed.
+
+Theorem csv_text_roundtrip rows :
+  Forall (Forall fits) rows -> csv_rd (translate (csv_wr rows)) = Ok (map (map translate) rows).
+Proof. exact (csv_text_roundtrip_gen _ _ _ csv_q_nl csv_d_nl csv_dq _ csv_term rows). Qed.
+
+(* a table exercising every writer rule: delimiter, quote, CR, LF, CR LF inside cells,
+   non-ASCII, a lone empty field (written [""]), an empty row (a blank line), an empty cell
+   between cells *)
+Definition ex_rows : list (list str) :=
+  [ [[97]; [44; 34; 13; 10]; []; [233; 19990; 128512]];
+    [[]];
+    [];
+    [[13]; [10]; [34; 34]; [97; 13; 98]];
+    [[]; []] ].
+
+Example csv_roundtrip_nonvacuous :
+  Forall (Forall fits) ex_rows /\
+  csv_wr ex_rows = [97; 44; 34; 44; 34; 34; 13; 10; 34; 44; 44; 233; 19990; 128512; 13; 10;
+                34; 34; 13; 10;
+                13; 10;
+                34; 13; 34; 44; 34; 10; 34; 44; 34; 34; 34; 34; 34; 34; 44; 34; 97; 13; 98; 34; 13; 10;
+                44; 13; 10] /\
+  csv_rd (csv_wr ex_rows) = Ok ex_rows.
+Proof.
+  assert (H : Forall (Forall fits) ex_rows).
+  { unfold ex_rows, fits. repeat constructor; vm_compute; discriminate. }
+  split; [exact H|]. split; [vm_compute; reflexivity|apply csv_roundtrip, H].
+Qed.
+
+Example csv_text_roundtrip_nonvacuous :
+  Forall (Forall fits) ex_rows /\ map (map translate) ex_rows <> ex_rows /\
+  csv_rd (translate (csv_wr ex_rows)) = Ok (map (map translate) ex_rows).
+Proof.
+  assert (H : Forall (Forall fits) ex_rows).
+  { unfold ex_rows, fits. repeat constructor; vm_compute; discriminate. }
+  split; [exact H|]. split; [vm_compute; discriminate|apply csv_text_roundtrip, H].
+Qed.
+
+(* the guard is needed: one field of csv.field_size_limit()+1 characters is written, and
+   refused by the reader (_csv.Error: field larger than field limit) *)
+Definition big_field : str := repeat 97 (N.to_nat (csv_field_limit + 1)).
+
+Theorem csv_roundtrip_unguarded_refuted :
+  ~ (forall rows, csv_rd (csv_wr rows) = Ok rows) /\ csv_rd (csv_wr [[big_field]]) = Err EFieldLimit.
+Proof.
+  assert (H : csv_rd (csv_wr [[big_field]]) = Err EFieldLimit) by (vm_compute; reflexivity).
+  split; [|exact H]. intros Hall. rewrite Hall in H. discriminate.
+Qed.
